@@ -1495,7 +1495,7 @@ pub fn main() {
     ck.assume("an Err whose source is io::ErrorKind::NotFound (a file the mutator has just deleted) is re-queried once and counts only if the retry fails too; InsufficientSlots errors are not violations (the generated slot count may be too small for the history) and are reported as a label; `contains()` = false is attributed to InsufficientSlots when try_header right afterwards reports that error");
     ck.assume("content is judged by SHA-1 computed by the harness (sha1_smol), not by gix-hash");
 
-    ck.sub("sequential", SubCfg::new(160, 5000).max_len(300).max_shrink(40), |t, c| {
+    ck.sub("sequential", SubCfg::new(120, 4000).max_len(300).max_shrink(40), |t, c| {
         let (w, script) = gen_sequential(t);
         c.key(&(&w, &script));
         c.sample_with(|| render_sequential(&w, &script));
@@ -1628,7 +1628,7 @@ pub fn main() {
         let _ = outcome_labels(c, &b, &outs);
     });
 
-    let cfg = SubCfg::new(36, 900).max_len(400).threads(2).max_shrink(4);
+    let cfg = SubCfg::new(24, 600).max_len(400).threads(2).max_shrink(4);
     ck.sub("repack", cfg, |t, c| {
         let w = gen_world(t);
         c.key(&w);
